@@ -226,7 +226,10 @@ def run_grid(ctx, case):
                             u, name, v2, has_current=cur, reference=not cur)))
                 for label, version, mk in forms:
                     o = store.register(srv, kind, 'alice', rng, state=rng.choice(('pre', 'active')) if kind in ('sym', 'pub', 'priv', 'split') else 'pre',
-                                       names=['grid-%d' % rng.getrandbits(30)], groups=['gg'], asi=[('gns', 'gdt')])
+                                       names=['grid-%d' % rng.getrandbits(30)],
+                                       # values other objects hold too, and the same value twice on one object
+                                       groups=rng.choice((['gg'], ['gg'], ['gg', 'gg'], ['gg', 'hh', 'gg'])),
+                                       asi=rng.choice(([('gns', 'gdt')], [('gns', 'gdt')], [('gns', 'gdt'), ('gns', 'gdt')])))
                     if o is None:
                         ctx.count('grid_object_not_registered')
                         continue
